@@ -40,7 +40,7 @@ def generate(rng, tier):
     if raw_ts:
         o.ts_range = None
     from .c11 import maybe_daqmx_world
-    spec = maybe_daqmx_world(rng, 0.25)
+    spec = maybe_daqmx_world(rng, 0.25, wide_digital_p=0.4)
     if spec is not None and not fields_disjoint(spec):
         spec = None
     if spec is None:
@@ -55,9 +55,13 @@ def daqmx_fields(si):
     """buffer index -> [(byte offset, size)] of the multi-byte scaler fields of a segment's rows"""
     out = {}
     for (p, h, idx) in si.active:
-        if h and idx['type'] == 'daqmx' and idx['daqmx']['kind'] != 'digital':
+        if h and idx['type'] == 'daqmx':
+            dig = idx['daqmx']['kind'] == 'digital'
             for sc in idx['daqmx']['scalers']:
-                out.setdefault(sc['buffer'], set()).add((sc['offset'], fmt.size_of(sc['type'])))
+                if dig and fmt.size_of(sc['type']) == 1:
+                    continue
+                # a line of a wider port: the port value is a field in the segment's byte order like any other scaler
+                out.setdefault(sc['buffer'], set()).add((sc['offset'] // 8 if dig else sc['offset'], fmt.size_of(sc['type'])))
     return {b: sorted(v) for b, v in out.items()}
 
 
@@ -76,6 +80,8 @@ def fields_disjoint(spec):
         for (p, h, idx) in si.active:
             if h and idx['type'] == 'daqmx' and idx['daqmx']['kind'] == 'digital':
                 for sc in idx['daqmx']['scalers']:
+                    if fmt.size_of(sc['type']) > 1:
+                        continue
                     byte = sc['offset'] // 8
                     for off, size in daqmx_fields(si).get(sc['buffer'], []):
                         if size > 1 and off <= byte < off + size:
